@@ -186,7 +186,7 @@ def run(tier, seed, replay=None):
         ef = exact.full(); nrm = float(ef.abs().pow(2).sum().sqrt())
         err = float((y_.full() - ef).abs().pow(2).sum().sqrt())
         floor = 2e-5 if single else 1e-11            # what the dtype can certify
-        if err > CONST * eps * nrm + floor * nrm + 1e-300:
+        if not (err <= CONST * eps * nrm + floor * nrm + 1e-300):
             V.fail("%s: error exceeds %g*eps" % (routine, CONST), dict(desc, rel_err=err / max(nrm, 1e-300), ranks=[int(r) for r in y_.R]))
         if y_.cores[0].dtype != dtype: V.fail("%s: dtype changed" % routine, desc)
         # decisions of the DMRG routines: threshold and rank against the model
@@ -267,6 +267,34 @@ def run(tier, seed, replay=None):
         except Exception as ex:
             V.fail("%s with a representable guess raises %s" % (desc["routine"], type(ex).__name__), dict(desc, exc=str(ex)[:200]))
     dist["representable guess: one sweep exact"] = n_exact
+    # ---- KNOWN FINDING family: a user supplied guess that equals the exact product on one index block (indices 0..n/2-1 of every mode) while the rest of
+    # the product lives on the complementary block is a stationary point of the two-site sweeps: the supercores do not change, the random kick columns
+    # overlap the missing part by less than a loose eps, and fast_matvec / dmrg_hadamard return the guess (error |x2|/|x| = 0.37, i.e. 37*eps at eps = 1e-2).
+    # amen_mv (residual-based enrichment) is right on the same input and must stay so.
+    rng_b = random.Random(seed + 79)
+    KEY_BLIND = "block-blind guess: %s returns a user supplied guess that is exact on one index block and zero on the complementary block (false convergence)"
+    for j in range(3 if tier == "quick" else 12):
+        d = 6; n_ = 10; eps = 1e-2; h_ = n_ // 2; N = [n_] * d
+        routine = ["fast_matvec", "dmrg_hadamard", "amen_mv"][j % 3]
+        sd = rng_b.randrange(1 << 30); torch.manual_seed(sd)
+        desc = {"routine": routine, "family": "block-blind guess", "d": d, "N": N, "eps": eps, "torch_seed": sd, "weight_of_missing_block": 0.4}
+        try:
+            def block(lo, hi):
+                t_ = torchtt.randn(N, [1] + [2] * (d - 1) + [1]); cs = []
+                for c in t_.cores:
+                    m_ = torch.zeros(c.shape[1], dtype=c.dtype); m_[lo:hi] = 1; cs.append(c * m_[None, :, None])
+                return torchtt.TT(cs)
+            x1, x2 = block(0, h_), block(h_, n_)
+            x1 = x1 * (1 / x1.norm()); x2 = x2 * (0.4 / x2.norm()); x = x1 + x2; ref = x.full()
+            if routine == "fast_matvec": y = torchtt.eye(N).fast_matvec(x, eps=eps, initial=x1, use_cpp=False)
+            elif routine == "dmrg_hadamard": y = torchtt.dmrg_hadamard(torchtt.ones(N), x, x1, eps=eps)
+            else: y = torchtt.amen_mv(torchtt.eye(N), x, x0=x1, eps=eps)
+            err = float(torch.linalg.norm(y.full() - ref) / torch.linalg.norm(ref))
+            dist["block-blind guess:" + routine] = dist.get("block-blind guess:" + routine, 0) + 1
+            if not err <= CONST * eps:
+                V.fail((KEY_BLIND % routine) if routine != "amen_mv" else "amen_mv misses the product from a block-blind guess", dict(desc, rel_err=err, bound=CONST * eps))
+        except Exception as ex:
+            V.fail("%s with a block-blind guess raises %s" % (routine, type(ex).__name__), dict(desc, exc=str(ex)[:200]))
     nviol = V.finish()
     cov = proofcheck.coverage(PID, obl, evaluations=n, distinct_nontrivial=len(set(json.dumps(s_, sort_keys=True) for s_, _ in replay_meta)) + sum(1 for _ in dist),
         rule=("fast_matvec, dmrg_hadamard, amen_mv, amen_mm on random exact-rank and decaying-spectrum operands of order 1..6, mode sizes 1..6, ranks 1..4, eps 1e-12..1e-1, random "
